@@ -16,6 +16,8 @@ inductive WOp where
   | createNextOp (k : SKey) (client : String) (done : Bool) (res : OpResult)
   /-- update of an operation the RPC holds (it was created or fetched by the same RPC) -/
   | updateOp (k : SKey) (op : SugOp)
+  /-- `update_metadata` (UpdateMetadata RPC and the metadata delta of every suggestion / early-stopping call) -/
+  | updateMetadata (k : SKey) (d : MdDelta)
   deriving Repr
 
 def Ram.exec (r : Ram) : WOp → Except DsErr Ram
@@ -35,6 +37,7 @@ def Ram.exec (r : Ram) : WOp → Except DsErr Ram
     match r.getOp k op.client op.num with
     | .error e => .error e
     | .ok _ => r.updateOp k op
+  | .updateMetadata k d => r.updateMetadata k d
 
 /-- `create_trial` is only ever issued by the service after `max_trial_id` / `load_study` of the same
     study succeeded under the study lock (vizier_service.py CreateTrial, SuggestTrials): the guard is
@@ -56,6 +59,7 @@ def Sql.exec (q : Sql) : WOp → Except DsErr Sql
     match q.getOp k op.client op.num with
     | .error e => .error e
     | .ok _ => q.updateOp k op
+  | .updateMetadata k d => q.updateMetadata k d
 
 theorem loadStudy_ok_hasStudy (q : Sql) (k : SKey) (h : Head) (hl : q.loadStudy k = .ok h) : q.hasStudy k = true := by
   unfold Sql.loadStudy at hl
@@ -63,6 +67,76 @@ theorem loadStudy_ok_hasStudy (q : Sql) (k : SKey) (h : Head) (hl : q.loadStudy 
   cases hf : q.studies.find? (·.1 == k) with
   | none => rw [hf] at hl; cases hl
   | some r => rfl
+
+theorem updateTrial_simN (q : Sql) (hw : WF q) (hn : Numbered q) (k : SKey) (t : Trial) :
+    (absQ q).updateTrial k t = (q.updateTrial k t).map absQ ∧
+      ∀ q', q.updateTrial k t = .ok q' → WF q' ∧ Numbered q' := by
+  have h := updateTrial_sim q hw k t
+  refine ⟨h.1, fun q' hq' => ⟨h.2 q' hq', ?_⟩⟩
+  unfold Sql.updateTrial at hq'
+  split at hq'
+  · injection hq' with hq'
+    subst hq'
+    exact numbered_of_ops_eq q _ rfl hn
+  · cases hq'
+
+theorem updateStudy_simN (q : Sql) (hw : WF q) (hn : Numbered q) (k : SKey) (h : Head) :
+    (absQ q).updateStudy k h = (q.updateStudy k h).map absQ ∧
+      ∀ q', q.updateStudy k h = .ok q' → WF q' ∧ Numbered q' := by
+  have hs := updateStudy_sim q hw k h
+  refine ⟨hs.1, fun q' hq' => ⟨hs.2 q' hq', ?_⟩⟩
+  unfold Sql.updateStudy at hq'
+  split at hq'
+  · injection hq' with hq'
+    subst hq'
+    exact numbered_of_ops_eq q _ rfl hn
+  · cases hq'
+
+theorem updMdTrials_sim (k : SKey) (l : List (Nat × MD)) : ∀ (q : Sql), WF q → Numbered q →
+    ((absQ q).updMdTrials k l = (q.updMdTrials k l).map absQ ∧
+      ∀ q', q.updMdTrials k l = .ok q' → WF q' ∧ Numbered q') := by
+  induction l with
+  | nil => intro q hw hn; exact ⟨rfl, fun q' hq' => by cases hq'; exact ⟨hw, hn⟩⟩
+  | cons e rest ih =>
+    intro q hw hn
+    obtain ⟨id, m⟩ := e
+    simp only [Ram.updMdTrials, Sql.updMdTrials]
+    rw [getTrial_sim q hw]
+    cases hg : q.getTrial k id with
+    | error e => exact ⟨rfl, fun q' hq' => by cases hq'⟩
+    | ok t =>
+      simp only
+      have hu := updateTrial_simN q hw hn k { t with md := mergeMd t.md m }
+      rw [hu.1]
+      cases hq1 : q.updateTrial k { t with md := mergeMd t.md m } with
+      | error e => exact ⟨rfl, fun q' hq' => by cases hq'⟩
+      | ok q1 =>
+        have := hu.2 q1 hq1
+        exact ih q1 this.1 this.2
+
+theorem updateMetadata_sim (q : Sql) (hw : WF q) (hn : Numbered q) (k : SKey) (d : MdDelta) :
+    (absQ q).updateMetadata k d = (q.updateMetadata k d).map absQ ∧
+      ∀ q', q.updateMetadata k d = .ok q' → WF q' ∧ Numbered q' := by
+  unfold Ram.updateMetadata Sql.updateMetadata
+  rw [loadStudy_sim q hw]
+  cases hl : q.loadStudy k with
+  | error e => exact ⟨rfl, fun q' hq' => by cases hq'⟩
+  | ok h =>
+    simp only
+    have hall : (d.trials.all fun e => isOk ((absQ q).getTrial k e.1)) = (d.trials.all fun e => isOk (q.getTrial k e.1)) := by
+      congr 1; funext e; rw [getTrial_sim q hw]
+    rw [hall]
+    cases hc : (d.trials.all fun e => isOk (q.getTrial k e.1)) with
+    | false => exact ⟨rfl, fun q' hq' => by simp at hq'⟩
+    | true =>
+      simp only [if_true]
+      have hu := updateStudy_simN q hw hn k { h with md := mergeMd h.md d.study }
+      rw [hu.1]
+      cases hq1 : q.updateStudy k { h with md := mergeMd h.md d.study } with
+      | error e => exact ⟨rfl, fun q' hq' => by cases hq'⟩
+      | ok q1 =>
+        have := hu.2 q1 hq1
+        exact updMdTrials_sim k d.trials q1 this.1 this.2
 
 theorem exec_sim (q : Sql) (hw : WF q) (hn : Numbered q) (op : WOp) :
     (absQ q).exec op = (q.exec op).map absQ ∧ (∀ q', q.exec op = .ok q' → WF q' ∧ Numbered q') := by
@@ -108,6 +182,7 @@ theorem exec_sim (q : Sql) (hw : WF q) (hn : Numbered q) (op : WOp) :
       simp only [hop, if_true, Except.ok.injEq] at hq'
       subst hq'
       exact numbered_update q hn k op
+  | updateMetadata k d => exact updateMetadata_sim q hw hn k d
   | createStudy k h =>
     refine lift (createStudy_sim q hw k h) ?_
     intro q' hq'
